@@ -52,6 +52,8 @@ impl<K> OrphanStats<K> {
                     continue;
                 }
 
+                #[cfg(feature = "verif-hooks")]
+                crate::verif::point("orphan:before_delete");
                 match std::fs::remove_file(&blob_path) {
                     Ok(_) => {
                         result.orphans_deleted += 1;
@@ -119,6 +121,8 @@ impl<K> OrphanStats<K> {
                     continue;
                 }
 
+                #[cfg(feature = "verif-hooks")]
+                crate::verif::point("orphan:before_quarantine");
                 match std::fs::rename(&src_path, &dst_path) {
                     Ok(_) => {
                         result.orphans_quarantined += 1;
@@ -157,6 +161,8 @@ impl<K> OrphanStats<K> {
             return Ok(false);
         }
 
+        #[cfg(feature = "verif-hooks")]
+        crate::verif::point("orphan:before_delete_one");
         match std::fs::remove_file(&blob_path) {
             Ok(_) => Ok(true),
             Err(e) if e.kind() == std::io::ErrorKind::NotFound => Ok(false),
